@@ -260,6 +260,8 @@ class Executor:
         return o
 
     def _ext_global(self, nm, off, nb, ty):
+        if nm == "__libc_single_threaded" and ty.k == "int":
+            return 0          # glibc's hint for libstdc++'s reference counts: "other threads may exist" (the atomic path is executed)
         raise Unsupported("read of external global @%s" % nm)
 
     def init_const(self, o, off, ty, c):
@@ -1024,6 +1026,26 @@ class Executor:
                 p = self.int_to_ptr(p) if p else NULL
             self.store(p, v, ins.args[0].ty)
             return None
+        if op == "atomicrmw":
+            pp = self.val(ins.args[0], env)
+            v = self.val(ins.args[1], env)
+            if isinstance(pp, int):
+                pp = self.int_to_ptr(pp) if pp else NULL
+            old = self.load(pp, ins.ty)
+            w = ins.ty.a
+            if not isinstance(old, int) or not isinstance(v, int):
+                raise Unsupported("atomicrmw on a symbolic value")
+            kind = ins.extra
+            if kind == "add":
+                new = (old + v) & ((1 << w) - 1)
+            elif kind == "sub":
+                new = (old - v) & ((1 << w) - 1)
+            elif kind == "xchg":
+                new = v
+            else:
+                raise Unsupported("atomicrmw " + kind)
+            self.store(pp, new, ins.ty)
+            return old
         if op == "getelementptr":
             base = self.val(ins.args[0], env)
             idx = [self.val(a, env) for a in ins.args[1:]]
